@@ -97,9 +97,9 @@ class LtlAstParserVisitor(LtlParserVisitor):
                 if id_tail:
                     raise RTAMTException('{0} refers to undeclared variable {1} of unknown type'.format(id, id_head))
                 else:
-                    self.declare_var(id, 'float')
+                    self.declare_var(id_head, 'float')
                     logging.warning('The variable {} is not explicitely declared. It is implicitely declared as a '
-                                'variable of type float'.format(id))
+                                'variable of type float'.format(id_head))
 
             var_io = self.var_io_dict[id_head]
             node = Variable(id_head, id_tail, var_io)
